@@ -89,6 +89,16 @@ def run(ctx, rep):
                 for i in wf.blocks[cb]:
                     if i.op == 'call' and i.callee == 'sputc' and wf.const_of(i.ops[0]) is not None:
                         wmap[chr(wf.const_of(i.ops[0]))] = cv
+    if not {'b', 'g', 'p'} <= set(wmap):
+        # the writer dispatches on the state with an if chain: read it through the case-entry abstraction (switch or ==/!= alike)
+        from .C05 import state_case_entries
+        from .C06 import blk_value
+        for nm_, k_ in blk_value(P).items():
+            for eb in state_case_entries(wf, k_):
+                for i in wf.blocks[eb]:
+                    if i.op == 'call' and i.callee == 'sputc' and wf.const_of(i.ops[0]) is not None:
+                        wmap[chr(wf.const_of(i.ops[0]))] = k_
+                        break
     rmap = {}
     for b in range(len(rf.blocks)):
         t = rf.term(b)
